@@ -386,6 +386,17 @@ class Check:
         for t in st['theorems']:
             ok = st['ok'] or (st['failing'] is not None and t != st['failing'] and False)
             self.obligation(t, 'theorem', st['ok'], '' if st['ok'] else st['error'])
+        if st['ok'] and st['theorems'] and self.tier == 'thorough':
+            # independent re-check of the compiled property file and everything it depends on
+            rc, out = sh(['timeout', '1500', 'coqchk', '-silent', '-o', '-Q', 'theories', 'TatsuV', '-Q', 'gen', 'TatsuGen',
+                          f'TatsuV.Properties.{self.pid}'], cwd=COQ, timeout=1600)
+            m = re.search(r'\* Axioms:(.*?)\n\s*\n\* Constants/Inductives relying on type-in-type:(.*?)\n\s*\n'
+                          r'\* Constants/Inductives relying on unsafe \(co\)fixpoints:(.*?)\n\s*\n\* Inductives whose positivity is assumed:(.*?)(?:\n\s*\n|\Z)',
+                          out, re.S)
+            clean = bool(m) and all('<none>' in g for g in m.groups()[1:])
+            axioms = [] if not m else [a.strip() for a in m.group(1).split('\n') if a.strip() and '<none>' not in a]
+            self.obligation('coqchk -o re-checks the property file and its dependencies', 'coqchk', rc == 0 and clean, out[-800:])
+            self.extra['coqchk'] = {'exit': rc, 'axioms': axioms, 'summary': out[-600:]}
         if st['ok'] and st['theorems']:
             self.extra['print_assumptions'] = {
                 'closed_under_global_context': st['closed'],
